@@ -14,6 +14,7 @@ type Unit struct {
 	Bound  int
 	Prune  bool
 	Weight int // rough relative cost, for ordering
+	MaxExecs int
 	Shards int // >1: the DFS tree is split at its first level over this many worker processes
 	Env    bool
 	Check  func(x *Exec) []Violation
@@ -58,6 +59,9 @@ func RunUnit(u *Unit, shard, nshards int, deadline time.Time, boundOverride int)
 	}
 	if err := u.Sc.Materialise(dir); err != nil {
 		return &UnitResult{Unit: u.Name, HarnessErr: err.Error()}
+	}
+	if u.MaxExecs > 0 {
+		defer func() {}()
 	}
 	bound := u.Bound
 	if boundOverride != -2 {
